@@ -63,6 +63,10 @@ def twin_oracle(ctx):
             args = dict(frame_length_ms=rng.choice([5.0, 10.0, 25.0]), frame_shift_ms=rng.choice([2.5, 5.0]),
                         frame_style=rng.choice(["causal", "centered"]), kaldi_shift=rng.random() < 0.4,
                         include_energy=rng.random() < 0.5)
+            if rng.random() < 0.15:
+                # frames shorter than the shift ("all computer configurations"): utterances may end inside the skipped gap
+                fl, fs = rng.choice([(5.0, 6.0), (10.0, 10.5), (5.0, 12.0), (2.5, 10.0)])
+                args.update(frame_length_ms=fl, frame_shift_ms=fs, kaldi_shift=False)
             return lambda: compute.STFTFrameComputer(bank(), **args), args
         bank = rng.choice([lambda: filters.GaborFilterBank("mel", num_filts=4, sampling_rate=8000),
                            lambda: filters.ComplexGammatoneFilterBank("mel", num_filts=4, sampling_rate=8000),
@@ -85,6 +89,8 @@ def twin_oracle(ctx):
                     r = c.finalize()
                 elif o[0] == "full":
                     x = sig.copy()
+                    if len(o) > 1 and o[1] == "other-dtype":  # a probe in another precision than the utterance in progress
+                        x = sig.astype(np.float32 if sig.dtype == np.float64 else np.float64)
                     h = x.tobytes()
                     x.setflags(write=False)
                     r = c.compute_full(x)
@@ -111,7 +117,7 @@ def twin_oracle(ctx):
                 s.append(("chunk", p, p + k))
                 p += k
                 if allow_mid and rng.random() < 0.1:
-                    s.append(("full",))
+                    s.append(("full", rng.choice(["same-dtype", "other-dtype"])))
                 if allow_mid and rng.random() < 0.05:
                     s.append(("fbf", 64))
             s.append(("finalize",))
@@ -164,6 +170,21 @@ def twin_oracle(ctx):
         a = drive(used, sc, sig)
         fresh = ctor()
         b = drive(fresh, sc, sig)
+        # "leave the utterance in progress undisturbed": the refused mid-utterance calls taken out of the script, a third
+        # instance gives the same answers to everything else
+        probes = [i for i, o in enumerate(sc) if o[0] in ("full", "fbf") and len(sc) > 1]
+        if probes and all(b[i][0] == "ValueError" for i in probes):
+            sc0 = [o for i, o in enumerate(sc) if i not in probes]
+            c0 = drive(ctor(), sc0, sig)
+            b0 = [r for i, r in enumerate(b) if i not in probes]
+            ctx.count("twin:undisturbed-by-refused-calls")
+            if c0 != b0:
+                first = next(i for i, (p, q) in enumerate(zip(b0, c0)) if p != q)
+                bad.append(dict(kind=kind, args={k: str(v) for k, v in args.items()}, history=[],
+                                next=dict(N=N, dtype=ndt, script=[list(o) for o in sc]), first_difference_at_op=first,
+                                used="with the refused mid-utterance calls: " + str(b0[first][:2]),
+                                fresh="the same script without them: " + str(c0[first][:2])))
+                continue
         ctx.count("twin:" + kind)
         ctx.case(dict(kind=kind, args={k: str(v) for k, v in args.items()}, history=hist_desc, next=dict(N=N, dtype=ndt, script=[list(o) for o in sc])),
                  nontrivial=any(isinstance(o[0], tuple) and o[0][0] > 0 for o in a))
@@ -172,6 +193,89 @@ def twin_oracle(ctx):
             bad.append(dict(kind=kind, args={k: str(v) for k, v in args.items()}, history=hist_desc,
                             next=dict(N=N, dtype=ndt, script=[list(o) for o in sc]), first_difference_at_op=first,
                             used=str(a[first][:2]), fresh=str(b[first][:2])))
+    return bad
+
+
+def corner_histories(ctx):
+    """Two families the random histories reach too rarely.  (a) A refused mid-utterance call in ANOTHER precision than the
+    utterance in progress, right before finalize: the frames finalize flushes (values and dtype) are those of the same
+    stream without the refused call.  (b) Frames shorter than the shift: for EVERY utterance length over three shifts,
+    streaming ends with a finalize that returns, leaves the computer idle, and the next utterance equals a fresh
+    instance's."""
+    C.ensure_impl_path()
+    from pydrobert.speech import compute, filters
+
+    nprng = np.random.RandomState(ctx.seed + 29)
+    bad = []
+    mk = {
+        "stft": lambda **kw: compute.STFTFrameComputer(filters.Fbank(num_filts=5, sampling_rate=8000), **kw),
+        "si": lambda **kw: compute.SIFrameComputer(filters.GaborFilterBank("mel", num_filts=3, sampling_rate=8000), **kw),
+    }
+    cfgs = [("stft", dict(frame_length_ms=10.0, frame_shift_ms=5.0, frame_style="centered")),
+            ("stft", dict(frame_length_ms=10.0, frame_shift_ms=5.0, frame_style="causal", include_energy=True)),
+            ("stft", dict(frame_length_ms=25.0, frame_shift_ms=10.0, frame_style="centered", kaldi_shift=True)),
+            ("si", dict(frame_shift_ms=5.0, frame_style="centered")),
+            ("si", dict(frame_shift_ms=5.0, frame_style="causal", include_energy=True))]
+    for kind, kw in cfgs:
+        for sdt, pdt in (("float32", "float64"), ("float64", "float32"), ("float32", "float16")):
+            for N in (130, 411):
+                x = nprng.randn(N).astype(sdt)
+                for probe in ("compute_full", "frame_by_frame_calculation"):
+                    a, b = mk[kind](**kw), mk[kind](**kw)
+                    cut = N // 2
+                    outs = []
+                    for c, with_probe in ((a, True), (b, False)):
+                        o = [c.compute_chunk(x[:cut]), c.compute_chunk(x[cut:])]
+                        if with_probe:
+                            try:
+                                if probe == "compute_full":
+                                    c.compute_full(nprng.randn(300).astype(pdt))
+                                else:
+                                    compute.frame_by_frame_calculation(c, nprng.randn(300).astype(pdt), 64)
+                                bad.append(dict(kind=kind, args={k: str(v) for k, v in kw.items()}, what="%s mid-utterance was not refused" % probe))
+                            except ValueError:
+                                pass
+                        o.append(c.finalize())
+                        outs.append(o)
+                    ctx.count("corner:refused-probe-other-dtype")
+                    ctx.case(dict(corner="refused-probe", kind=kind, args={k: str(v) for k, v in kw.items()}, N=N, stream_dtype=sdt, probe=probe, probe_dtype=pdt),
+                             nontrivial=True)
+                    for i, (p, q) in enumerate(zip(*outs)):
+                        if p.dtype != q.dtype or p.shape != q.shape or p.tobytes() != q.tobytes():
+                            bad.append(dict(kind=kind, args={k: str(v) for k, v in kw.items()},
+                                            what="a refused %s(%s signal) disturbed the %s utterance in progress: output #%d of "
+                                                 "[chunk, chunk, finalize] is %s %s with the refused call, %s %s without"
+                                                 % (probe, pdt, sdt, i, p.dtype, p.shape, q.dtype, q.shape), N=N))
+                            break
+    for style, fl, fs in (("centered", 5.0, 6.0), ("centered", 10.0, 10.5), ("causal", 5.0, 12.0), ("causal", 2.5, 10.0), ("centered", 2.5, 10.0)):
+        kw = dict(frame_length_ms=fl, frame_shift_ms=fs, frame_style=style)
+        used = mk["stft"](**kw)
+        Lv, Sv = used.frame_length, used.frame_shift
+        nxt = nprng.randn(2 * Sv + Lv)
+        want = None
+        for N in range(0, 3 * Sv + Lv + 1):
+            x = nprng.randn(N)
+            ctx.count("corner:shift>length:every-length")
+            try:
+                used.compute_chunk(x[: N // 3])
+                used.compute_chunk(x[N // 3:])
+                used.finalize()
+                idle = not used.started
+                got = used.compute_full(nxt)
+            except Exception as e:  # noqa: BLE001
+                bad.append(dict(kind="stft", args={k: str(v) for k, v in kw.items()}, N=N,
+                                what="streaming an utterance of %d samples (frame_length %d, frame_shift %d): %s: %s; started=%s afterwards"
+                                     % (N, Lv, Sv, type(e).__name__, str(e)[:80], used.started)))
+                break
+            if want is None:
+                want = mk["stft"](**kw).compute_full(nxt)
+            if not idle or got.tobytes() != want.tobytes():
+                bad.append(dict(kind="stft", args={k: str(v) for k, v in kw.items()}, N=N,
+                                what="after an utterance of %d samples (frame_length %d, frame_shift %d) the computer is %s and the next "
+                                     "utterance %s a fresh instance's" % (N, Lv, Sv, "idle" if idle else "still started",
+                                                                         "equals" if got.tobytes() == want.tobytes() else "differs from")))
+                break
+        ctx.case(dict(corner="shift>length", args={k: str(v) for k, v in kw.items()}, lengths="0..%d" % (3 * Sv + Lv)), nontrivial=True)
     return bad
 
 
@@ -209,6 +313,10 @@ def run(ctx):
     tw = twin_oracle(ctx)
     for b in tw[:5]:
         ctx.fail("used instance differs from a fresh one on the next utterance", b, kind="impl")
+    ch = corner_histories(ctx)
+    for b in ch[:4]:
+        ctx.fail("history property violated: %s" % b.get("what"), b, kind="impl")
+    tw = tw + ch
     if bad:
         k = bad[0]
         rp = dict(correspondence="coq/Stft/Model.v histories vs one ShortTimeFourierTransformFrameComputer instance",
